@@ -122,6 +122,118 @@ def merge (sameBranch supports : Bool) (src tgt : Dict κ ν) (master : Option (
 
 end reconcile
 
+/-! ## local git tag stores (`breezy/git/branch.py`)
+
+A local git repository stores a tag as the ref `refs/tags/<name>` holding a sha;
+`git-v1:<sha>` ↔ sha is a bijection, so the raw refs are modelled as a `Dict`
+from tag names to revision ids.  Only lightweight tags are modelled. -/
+
+/-- how the destination git repository sees a revision id -/
+inductive RevClass where
+  /-- the revision id of a commit that is in the repository -/
+  | commit
+  /-- not a git revision id: `lookup_bzr_revision_id` raises `NoSuchRevision`,
+  `LocalGitTagDict.set_tag` raises `GhostTagsNotSupported` -/
+  | ghost
+  /-- a well-formed git revision id whose object is not in the repository -/
+  | absent
+  deriving DecidableEq, Repr
+
+def RevClass.isCommit : RevClass → Bool
+  | .commit => true
+  | _ => false
+
+/-- does `LocalGitTagDict._set_tag_dict` write the ref of one tag (`true`) or
+skip the tag (`false`: `set_tag` raised `GhostTagsNotSupported`, suppressed)?
+`strict` = revisions that are absent from the repository are refused as well
+(what `set_tag`'s docstring promises).  The code is probed on every run to
+select the variant it implements. -/
+def setTagWrites (strict : Bool) : RevClass → Bool
+  | .commit => true
+  | .ghost => false
+  | .absent => !strict
+
+section git
+variable {κ ν : Type} [DecidableEq κ] [DecidableEq ν]
+
+/-- `del d[k]` -/
+def ddel (d : Dict κ ν) (k : κ) : Dict κ ν := d.filter fun e => !(e.1 == k)
+
+/-- `GitTags.get_tag_dict`: a tag ref whose object is missing is skipped
+(`LocalGitBranch._iter_tag_refs`: `KeyError` → warning, `continue`) -/
+def gitRead (cls : ν → RevClass) (refs : Dict κ ν) : Dict κ ν :=
+  refs.filter fun e => (cls e.2).isCommit
+
+/-- loop body of `LocalGitTagDict._set_tag_dict`; state = (refs, extra):
+```
+name = tag_name_to_ref(k)
+if name in extra: extra.remove(name)
+with contextlib.suppress(errors.GhostTagsNotSupported): self.set_tag(k, revid)
+```
+The `suppress` is per tag: a ghost skips that tag only. -/
+def gitSetStep (strict : Bool) (cls : ν → RevClass) (st : Dict κ ν × List κ) (e : κ × ν) :
+    Dict κ ν × List κ :=
+  (if setTagWrites strict (cls e.2) then dset st.1 e.1 e.2 else st.1,
+   st.2.filter fun x => !(x == e.1))
+
+/-- `LocalGitTagDict._set_tag_dict(to_dict)`: write every tag that can be
+written, then delete the tag refs that are not named in `to_dict` -/
+def gitSetTagDict (strict : Bool) (cls : ν → RevClass) (refs to : Dict κ ν) : Dict κ ν :=
+  let st := to.foldl (gitSetStep strict cls) (refs, dkeys refs)
+  st.2.foldl ddel st.1
+
+/-- `MemoryTags.merge_to` / `InterTags._merge_to` onto a local git store:
+returns (raw refs afterwards, updates, conflicts) -/
+def gitMergeTo (strict : Bool) (cls : ν → RevClass) (refs src : Dict κ ν) (ow : Bool)
+    (sel : Option (κ → Bool)) : Dict κ ν × Dict κ ν × List (κ × ν × ν) :=
+  let dest := gitRead cls refs
+  let r := reconcile src dest ow sel
+  ((if dictNe r.result dest then gitSetTagDict strict cls refs r.result else refs),
+   r.updates, r.conflicts)
+
+structure G2G (κ ν : Type) where
+  refs : Dict κ ν
+  updates : Dict κ ν
+  conflicts : List (κ × ν × ν)
+
+/-- loop body of `InterTagsFromGitToLocalGit.merge` (lightweight tags):
+```
+if selector and not selector(tag_name): continue
+if target_repo._git.refs.get(ref_name) == unpeeled: pass
+elif overwrite or ref_name not in target_repo._git.refs:
+    try: updates[tag_name] = target_repo.lookup_foreign_revision_id(peeled)
+    except KeyError: continue            # commit not in the target repository
+    target_repo._git.refs[ref_name] = unpeeled or peeled
+else:
+    try: target_revid = target_repo.lookup_foreign_revision_id(target_repo._git.refs[ref_name])
+    except KeyError: continue            # the target's ref is broken
+    conflicts.append((tag_name, source_revid, target_revid))
+```
+`cls` classifies with respect to the *target* repository. -/
+def g2gStep (cls : ν → RevClass) (ow : Bool) (sel : Option (κ → Bool)) (st : G2G κ ν) (e : κ × ν) :
+    G2G κ ν :=
+  if !selected sel e.1 then st
+  else
+    let take : G2G κ ν :=
+      if (cls e.2).isCommit then
+        { st with refs := dset st.refs e.1 e.2, updates := dset st.updates e.1 e.2 }
+      else st
+    match dget st.refs e.1 with
+    | none => take
+    | some w =>
+      if w = e.2 then st
+      else if ow then take
+      else if (cls w).isCommit then { st with conflicts := st.conflicts ++ [(e.1, e.2, w)] }
+      else st
+
+/-- `InterTagsFromGitToLocalGit.merge`: `src` = the source's readable tags,
+`refs` = the target's raw tag refs -/
+def gitToGit (cls : ν → RevClass) (refs src : Dict κ ν) (ow : Bool) (sel : Option (κ → Bool)) :
+    G2G κ ν :=
+  src.foldl (g2gStep cls ow sel) ⟨refs, [], []⟩
+
+end git
+
 /-! ## bencode of a flat byte-string dict -/
 
 /-- digits of `n`, least significant first (`fuel > n` suffices) -/
